@@ -11,5 +11,6 @@ CONSTANTS
   MaxB = 32
   MaxPa = 4
   TRem = {}
+  FixedPlan = 0
 INVARIANTS Inv Refines LookupOK ChkOK CapacityOK
 CHECK_DEADLOCK FALSE
